@@ -1490,12 +1490,12 @@ fn validate_name_string_encoding(
                 let range_start = token_start + cur_off + pos;
                 if let Some(val) = to_scan.get(pos + 1..pos + 5) {
                     if let Some(idx) = val.bytes().position(|b| !b.is_ascii_hexdigit()) {
+                        // the offending character follows the backslash and `idx` hex digits
+                        let bad = val[idx..].chars().next().unwrap();
+                        let bad_start = range_start + 1 + idx;
                         return Err((
-                            range_start + idx..range_start + idx + 1,
-                            format!(
-                                "invalid escape sequence: '{}' is not a hex digit",
-                                val.as_bytes()[idx] as char
-                            ),
+                            bad_start..bad_start + bad.len_utf8(),
+                            format!("invalid escape sequence: '{bad}' is not a hex digit"),
                         ));
                     }
                 } else {
@@ -1504,19 +1504,19 @@ fn validate_name_string_encoding(
                         "windows escape sequences must be four hex digits long".into(),
                     ));
                 }
-                cur_off += to_scan[..pos].len();
+                cur_off += pos + 5;
                 to_scan = &to_scan[pos + 5..];
             }
             Some(pos) => {
                 let range_start = token_start + cur_off + pos;
                 if let Some(val) = to_scan.get(pos + 1..pos + 3) {
                     if let Some(idx) = val.bytes().position(|b| !b.is_ascii_hexdigit()) {
+                        // the offending character follows the backslash and `idx` hex digits
+                        let bad = val[idx..].chars().next().unwrap();
+                        let bad_start = range_start + 1 + idx;
                         return Err((
-                            range_start + idx..range_start + idx + 1,
-                            format!(
-                                "invalid escape sequence: '{}' is not a hex digit",
-                                val.as_bytes()[idx] as char
-                            ),
+                            bad_start..bad_start + bad.len_utf8(),
+                            format!("invalid escape sequence: '{bad}' is not a hex digit"),
                         ));
                     }
 
@@ -1532,7 +1532,7 @@ fn validate_name_string_encoding(
                         "mac escape sequences must be two hex digits long".into(),
                     ));
                 }
-                cur_off += to_scan[..pos].len();
+                cur_off += pos + 3;
                 to_scan = &to_scan[pos + 3..];
             }
         }
